@@ -35,6 +35,9 @@ def norm_outcome(o):
     if kind == 'text':
         return ['text', o[1]]
     if kind == 'return':
+        if isinstance(o[1], str):
+            # a returned string cannot be told from rendered text by a caller
+            return ['text', o[1]]
         return ['return', describe(o[1])]
     e = o[1]
     return ['raise', type(e).__name__, str(e)]
